@@ -26,7 +26,7 @@ META = {
             "need; operator patches build init from (mu0, num_flavs_init); v1 adds matching_order (0,0), the use_fhmv rename "
             "and one integration core.",
     "note": "Real legacy files are not read; the mapping table is the specification.",
-    "technique": "partial evaluation of the converters on symbolic legacy dictionaries + exact comparison with a mapping table; routing table from the AST",
+    "technique": "partial evaluation of the converters on symbolic legacy dictionaries + exact comparison with a mapping table; version routing evaluated on a model file system with recording patches",
     "engine": "sa",
 }
 
